@@ -45,7 +45,20 @@ func VerifC16Request() {
 	} else {
 		wire = vf.Bytes("body", vf.Choice("body-len", vf.Param("bodylens")))
 	}
-	spec := msg.Spec{Framing: framing, Wire: wire, ContentType: ct, Query: "a=1&b=two", Cookie: "sid=abc"}
+	// a request body may carry a content coding; the origin receives it still coded, so that
+	// is what the post data must show (coded properly, or merely labelled as such)
+	enc := ""
+	if !form {
+		switch vf.Choice("request-content-encoding", 4) {
+		case 1:
+			enc, wire = "gzip", vf.Enc("gzip", wire)
+		case 2:
+			enc, wire = "deflate", vf.Enc("deflate", wire)
+		case 3:
+			enc = "gzip" // labelled gzip, arbitrary bytes
+		}
+	}
+	spec := msg.Spec{Framing: framing, Wire: wire, Encoding: enc, ContentType: ct, Query: "a=1&b=two", Cookie: "sid=abc"}
 	req, _ := msg.NewRequest(spec)
 	withBody := vf.Choice("capture", 2) == 1
 	hr, err := NewRequest(req, withBody)
